@@ -286,6 +286,10 @@ B('in_prod-flag-swapped', (RT, "            await self.returnType((stype, x_inte
 # ---------------------------------------------------------------- CF / PF / G1 / OP / SG
 FF = 'finfields'
 ST = 'sectypes'
+M('revert-fix-scalar-cmp-array', ['C37'], (ST, "        # self > other <=> other < self\n        if isinstance(other, SecureArray):\n            return NotImplemented\n\n        return runtime.lt(other, self)",
+                                                "        # self > other <=> other < self\n        return runtime.lt(other, self)"))
+M('scalar-add-unfiltered', ['C37'], (ST, "        other = self._coerce(other)\n        if other is NotImplemented:\n            return NotImplemented\n\n        return runtime.add(self, other)",
+                                          "        return runtime.add(self, other)"))
 M('setup-threshold-le-half', ['C39'], (RT, "    assert 2*options.threshold < m, f'threshold", "    assert options.threshold <= m//2, f'threshold"))
 M('setup-threshold-le', ['C39'], (RT, "    assert 2*options.threshold < m, f'threshold", "    assert 2*options.threshold <= m, f'threshold"))
 M('setup-no-check', ['C39'], (RT, "    assert 2*options.threshold < m, f'threshold {options.threshold} too large for {m} parties'\n", ""))
